@@ -229,6 +229,20 @@ def main(argv=None) -> int:
         "violations": 0,
     }
     evidence["violations"] = sum(1 for ln in lines if ln.startswith("VIOLATION"))
+    # the evidence must satisfy the harness schema; otherwise this run is a harness error
+    try:
+        import jsonschema
+
+        schema_file = Path("/root/.vp/EVIDENCE.schema.json")
+        if not schema_file.exists():
+            schema_file = core.VERIF_DIR / "tools" / "EVIDENCE.schema.json"
+        jsonschema.validate(json.loads(json.dumps(evidence, default=str)), json.loads(schema_file.read_text()))
+    except ImportError:
+        pass
+    except Exception as e:  # noqa: BLE001
+        print(f"HARNESS-ERROR evidence does not validate: {str(e)[:400]}")
+        if exit_code == 0:
+            exit_code = 2
     if not args.claims or exit_code != 2:
         (core.VERIF_DIR / "evidence").mkdir(exist_ok=True)
         (core.VERIF_DIR / "evidence" / f"{prop}.json").write_text(json.dumps(evidence, indent=1, default=str))
